@@ -179,6 +179,11 @@ def rounding_seed(solver, dt):
     one = np.ones(ops.psi_laplacian.shape[0], dtype=np.complex128)
     a = np.absolute(one) ** 2
     y = (dt / solver.u) * np.sqrt(1 + solver.gamma ** 2 * a) * ((solver.epsilon - a) * one + ops.psi_laplacian @ one)
+    if ops.fix_psi and ops.fixed_sites is not None and len(ops.fixed_sites):
+        # pinned terminal sites: identity rows (row "sum" 1), re-imposed to exactly terminal_psi by the solver after every
+        # step -- they cannot carry a seed; only the free rows (which still couple to the pinned sites) count
+        y = np.array(y)
+        y[np.asarray(ops.fixed_sites)] = 0.0
     seeded = bool(np.any(one + y != one))
     yr = np.real(y)
     seeded_by_threshold = bool(np.any(yr > HALF_ULP_UP) or np.any(yr < -HALF_ULP_DOWN) or np.any(np.imag(y) != 0))
